@@ -1,5 +1,6 @@
 import NLE.Model.Round
 import NLE.Theorems.C17
+import NLE.Gen.Shape
 /-!
 # C17 (election round clause)
 
@@ -81,5 +82,51 @@ theorem second_attempt_after_backoff (r0 r : Rat) (rest : List Bool) (ds : List 
   refine ⟨?_, ?_, by omega, by omega⟩
   · simp [rr, run, runFrom, Gen.maxRetries]
   · cases o2 <;> simp [rr, run, runFrom, Gen.maxRetries]
+
+/-- Where the store log's Create calls come from (regenerated from the source on every run): the only function that
+    issues a Create is `attemptAcquire`, with one call site, so an attempt is at most one Create; attempts are made by
+    Start (one), by the round (`attemptAcquireWithRetry`, at most four: `at_most_four_attempts`) and by the watcher's
+    takeover opportunity (one).  This is what the trace monitor's `more-creates-than-attempts` clause counts against. -/
+theorem one_create_per_attempt :
+    Gen.kvCreateCallers = ["kvElection.attemptAcquire"] ∧
+    Gen.attemptAcquireCallers = ["kvElection.Start", "kvElection.attemptAcquireWithRetry", "kvElection.handleWatchEvent"] ∧
+    Gen.attemptPriorityTakeoverCallers = ["kvElection.attemptAcquire"] := by
+  decide +kernel
+
+/-- What can make an instance issue Creates: `Start` (one attempt of its own), an acquisition round, a takeover
+    opportunity seen by the watcher (one attempt). -/
+inductive Spawn where
+  | start
+  | round (r0 : Rat) (outcomes : List Bool) (draws : List Rat)
+  | opportunity
+
+/-- Creates issued (one per attempt: `one_create_per_attempt`). -/
+def Spawn.creates : Spawn → Nat
+  | .start => 1
+  | .round r0 o d => (run r0 o d).attempts.length
+  | .opportunity => 1
+
+/-- What the trace monitor books for it (`more-creates-than-attempts`). -/
+def Spawn.credit : Spawn → Nat
+  | .start => 1
+  | .round .. => 4
+  | .opportunity => 1
+
+/-- Whatever an instance's rounds draw and however their attempts end, the Creates it issues never exceed what the
+    monitor has booked: the clause cannot fail on code that follows the round model. -/
+theorem creates_le_credit (ss : List Spawn) : (ss.map Spawn.creates).sum ≤ (ss.map Spawn.credit).sum := by
+  induction ss with
+  | nil => simp
+  | cons s rest ih =>
+    have h : s.creates ≤ s.credit := by
+      cases s with
+      | start => simp [Spawn.creates, Spawn.credit]
+      | opportunity => simp [Spawn.creates, Spawn.credit]
+      | round r0 o d => simpa [Spawn.creates, Spawn.credit] using at_most_four_attempts r0 o d
+    simp only [List.map_cons, List.sum_cons]; omega
+
+/-- The bound is reached: a round whose four attempts all fail. -/
+example : (Spawn.round 0 [false, false, false, false] []).creates = 4 := by
+  simp [Spawn.creates, run, runFrom, Gen.maxRetries]
 
 end NLE.Theorems.C17Round
